@@ -155,7 +155,7 @@ func (w *world) execAdmission(r *hx.Run, op []string) (string, bool) {
 func (f *gov) genAdmission(s *sc) {
 	r := s.r
 	r.Rule("histories = N = 4..7 validators, 4 relayer candidates; seeded relayer register / remove requests with approval rounds (full and partial), validator quits and epoch changes, permitted-cache refreshes and node restarts, each followed by admission queries for signer sets over registered / removed / never registered / validator / former validator / operator / unknown addresses (0..3 signers); distinct non-trivial = admitted queries by number of signers, applied approvals by (method, N)")
-	nHist := r.Pick(200, 20000)
+	nHist := r.Pick(200, 4000)
 	for h := 0; h < nHist; h++ {
 		n := 4 + h%4
 		s.start(fmt.Sprintf("admission-N%d-%d", n, h), n, 1, 100000)
